@@ -560,6 +560,23 @@ fn templates() -> Vec<Json> {
         // tokenisation: the compound operator is one token
         t.push(tpl("tokenisation", &format!("unspaced {aop}"), ap, &format!("r := c{aop}3; (r, *c)"), &format!("r := (c {aop} 3); (r, *c)"), &[], true));
     }
+    // a prefix minus on the right operand, with the documented value written as a literal (the negation of
+    // a float zero is the negative zero)
+    let zp = "z0 := 0.0; fl := 2.5; one := 1.0; ";
+    for (name, flat, expected, value) in [
+        ("division by a negated zero", "fl / -z0", "fl / (-z0)", "(0.0 - 2.5) / 0.0"),
+        ("negated zero times", "-z0 * fl", "(-z0) * fl", "(0.0 - 1.0) * 0.0"),
+        ("negated zero plus zero", "one / (-z0 + -z0)", "one / ((-z0) + (-z0))", "(0.0 - 1.0) / 0.0"),
+        ("zero minus negated", "one / (z0 - -z0)", "one / (z0 - (-z0))", "1.0 / 0.0"),
+        ("power of a negated zero", "one / -z0 ** 3.0", "one / ((-z0) ** 3.0)", "(0.0 - 1.0) / 0.0"),
+    ] {
+        for (pre2, how) in [(zp.to_string(), "constants"), ("pz := (z0: float, fl: float, one: float) -> any { return ".to_string(), "parameters")] {
+            let (f2, e2) = if how == "constants" { (flat.to_string(), expected.to_string()) } else { (format!("{flat}; }}; pz(0.0, 2.5, 1.0)"), format!("{expected}; }}; pz(0.0, 2.5, 1.0)")) };
+            let mut case = tpl("infix-then-prefix", &format!("{name} ({how})"), &pre2, &f2, &e2, &[], true);
+            case["value"] = json!(value);
+            t.push(case);
+        }
+    }
     // right-to-left chains: what flows up the chain is the value each assignment stored
     let ap2 = "c := mut 5; d := mut 9; ";
     for (aop, v) in [("=", 3i64), ("+=", 8), ("-=", 2), ("*=", 15), ("/=", 1), ("%=", 2), ("**=", 125), ("<<=", 40), (">>=", 0), ("&=", 1), ("|=", 7), ("^=", 6)] {
